@@ -521,13 +521,14 @@ def _expand_order_by_and_distinct_on(scope: Scope, resolver: Resolver) -> None:
             original.replace(expanded)
 
         if expr.args.get("group"):
-            selects = {s.this: exp.column(s.alias_or_name) for s in expression.selects}
+            selects = {s.this: s.alias_or_name for s in expression.selects}
 
             for node in modifier_expressions:
+                # Build a new column for each term: the same term can appear more than once
                 node.replace(
                     exp.to_identifier(_select_by_pos(expression, node).alias)
                     if node.is_int
-                    else selects.get(node, node)
+                    else (exp.column(selects[node]) if node in selects else node)
                 )
 
 
